@@ -1,7 +1,7 @@
 (* Properties/C16.v — Log blooms have no false negatives and log queries are exact.
    Only statements closed by `exact`, with Print Assumptions under each.
    H is the hash (crypto.Keccak256 in the code): every theorem holds for every H. *)
-From AQ Require Import Lib.Bytes Lib.Keccak Bloom.BloomModel Bloom.FilterModel Bloom.BloomProofs Bloom.FilterProofs.
+From AQ Require Import Lib.Bytes Lib.Keccak Generated.GenParamsBloom Bloom.BloomModel Bloom.FilterModel Bloom.BloomProofs Bloom.FilterProofs Bloom.ByteModel Bloom.ByteProofs.
 Local Open Scope N_scope.
 
 (* every address and every topic of every log of the receipts tests positive in
@@ -136,6 +136,81 @@ Theorem C16_process_section_ok_partial :
       N.testbit (nth i rows 0) k = N.testbit (nth (N.to_nat k) blooms 0) (N.of_nat i).
 Proof. exact process_section_ok_partial. Qed.
 Print Assumptions C16_process_section_ok_partial.
+
+(* Byte level (Go's []byte vectors: block k at bit 7-k%8 of byte k/8; bitutil ANDBytes/ORBytes/TestBytes;
+   Matcher.Start's skip of a zero byte on a byte boundary): the byte-level matcher over the packed
+   rows of full sections returns exactly what the bit-list matcher returns, for every section size
+   that is a multiple of 8 *)
+Theorem C16_matcher_bytes_refines_bits :
+  forall (c : chain) (size nsec : N) (filters : list (list (N * N * N))) (b e : N),
+  0 < size -> size mod 8 = 0 -> e / size < nsec -> nsec * size <= lenN c ->
+  matcher_run_b (index_b_of_chain c size) size filters b e
+  = matcher_run (index_of_chain c size) size filters b e.
+Proof. exact matcher_bytes_refines_bits. Qed.
+Print Assumptions C16_matcher_bytes_refines_bits.
+
+(* the loop of Matcher.Start with its zero-byte skip emits exactly the set bits of first..last *)
+Theorem C16_start_loop_skip_correct :
+  forall (v : bytes) (start last : N), start mod 8 = 0 ->
+  forall (fuel : nat) (i : N), start <= i -> (N.to_nat (last + 1 - i) <= fuel)%nat ->
+  start_loop fuel v start i last = filter (fun k => bvec_bit v (k - start)) (range_lt i (last + 1)).
+Proof. exact start_loop_spec. Qed.
+Print Assumptions C16_start_loop_skip_correct.
+
+(* the bytes of a generator row (what Bitset returns / is stored): bit k of the packed row is bit k of the row *)
+Theorem C16_generator_row_packed :
+  forall (size row k : N), size mod 8 = 0 -> k < size ->
+  bvec_bit (pack (row_bits size row)) k = N.testbit row k.
+Proof. exact generator_row_packed. Qed.
+Print Assumptions C16_generator_row_packed.
+
+(* what filters.New hands to NewMatcher is the nil-free case of the raw-clause constructor, in which
+   an empty clause or a clause with a nil alternative constrains nothing *)
+Theorem C16_matcher_filters_is_new_matcher :
+  forall (H : bytes -> bytes) (addrs : list bytes) (tops : list (list bytes)),
+  matcher_filters H addrs tops
+  = new_matcher_filters H (map (map Some) ((match addrs with [] => [] | _ => [addrs] end) ++ tops)).
+Proof. exact matcher_filters_is_new_matcher. Qed.
+Print Assumptions C16_matcher_filters_is_new_matcher.
+
+Theorem C16_new_matcher_nil_is_wildcard :
+  forall (H : bytes -> bytes) (pre post : list (list (option bytes))) (a b : list (option bytes)),
+  new_matcher_filters H (pre ++ (a ++ None :: b) :: post) = new_matcher_filters H (pre ++ post)
+  /\ new_matcher_filters H (pre ++ [] :: post) = new_matcher_filters H (pre ++ post).
+Proof. exact new_matcher_nil_is_wildcard. Qed.
+Print Assumptions C16_new_matcher_nil_is_wildcard.
+
+(* constants regenerated from /repo by the translator on every run (Generated/GenParamsBloom.v) *)
+Theorem C16_params_match :
+  g_bloom_bit_length = 2048 /\ N.of_nat bloom_bit_length = g_bloom_bit_length /\
+  g_bloom_byte_length * 8 = g_bloom_bit_length /\ lenN (bloom_bytes 0) = g_bloom_byte_length /\
+  g_bloom9_max_bit_observed < g_bloom_bit_length /\
+  g_bloom_confirms = g_params_bloom_confirms /\
+  g_new_generator_accepts_production_size = true.
+Proof. exact params_match_bloom. Qed.
+Print Assumptions C16_params_match.
+
+(* at the production section size (params.BloomBitsBlocks as regenerated) every section commits *)
+Theorem C16_production_section_commits :
+  forall blooms : list N, lenN blooms = g_bloom_bits_blocks ->
+  exists rows, process_section g_bloom_bits_blocks blooms = GOk rows /\ length rows = bloom_bit_length /\
+    forall i k, (i < bloom_bit_length)%nat -> k < g_bloom_bits_blocks ->
+      N.testbit (nth i rows 0) k = N.testbit (nth (N.to_nat k) blooms 0) (N.of_nat i).
+Proof. exact production_section_commits. Qed.
+Print Assumptions C16_production_section_commits.
+
+(* FALSE of the code (signature getlogs-toblock-pending-skips-unindexed-blocks): the full-strength
+   statement with the JSON-RPC open end "pending" admitted,
+     forall ... (-2 <= end_ < two63) ..., filter_query ... begin end_ = brute_force ... begin (if end_ = -2 then -1 else end_),
+   fails: with toBlock = pending (-2) Filter.Logs answers from the indexed sections only and never
+   scans the unindexed blocks.  C16_logs_exact(_general) above is the proved remainder (-1 <= end_). *)
+Theorem C16_logs_exact_toblock_pending_refuted :
+  exists (H : bytes -> bytes) (c : chain) (idx : index) (size sections : N),
+    c <> [] /\ 0 < size /\ sections * size <= lenN c /\
+    filter_query H [] [] c idx size sections 0 (-2) = [] /\
+    brute_force [] [] c 0 (-1) <> [].
+Proof. exact toblock_pending_refuted. Qed.
+Print Assumptions C16_logs_exact_toblock_pending_refuted.
 
 (* non-vacuity: a 17-block chain (section size 8, two sections indexed) with Keccak-256 as H,
    header blooms = CreateBloom(receipts) by construction (ex_blk), logs in blocks 3, 12, 15 and 16; a query by address and
